@@ -394,12 +394,18 @@ def check(db, rep):
             except Exception:
                 continue
             sp = bytes(sp).decode('ascii', 'replace').strip() if isinstance(sp, (bytes, bytearray)) else ''
-            if sp and sp[0].islower() and all(ch.isalnum() for ch in sp):
+            if sp and sp[0].isalpha() and all(ch.isalnum() for ch in sp):
                 words.add(sp)
-        for w in sorted(words) + ['pr1', 'pr12']:
-            if all((ch in inv) or ch.isdigit() for ch in w):
-                cands.append(''.join(inv.get(ch, ch) for ch in w))                         # all Greek
-                cands.append(inv.get(w[0], w[0]) + w[1:])                                  # Greek first letter, Latin rest
+        import itertools as _it
+        for w in sorted(words) + ['pr1', 'pr12', 'Pr1', 'Pr12', 'Fi1', 'Fi12']:
+            # every spelling of the word in which at least one letter is the Greek letter that is transliterated to it (an identifier of any
+            # kind may contain Greek letters: Pρ1 is a global name of the MATH syntax and Pr1 a keyword of the ASCII one)
+            slots = [i for i, ch in enumerate(w) if ch in inv]
+            if not slots or len(slots) > 6:
+                continue
+            for r_ in range(1, len(slots) + 1):
+                for pick in _it.combinations(slots, r_):
+                    cands.append(''.join(inv[ch] if i in pick else ch for i, ch in enumerate(w)))
         bad_glob, bad_loc, n_glob, n_loc = None, None, 0, 0
         try:
             for text in cands:
